@@ -8,6 +8,9 @@ Line protocol for the blueprint model.
   dims  [comp:key=NUM:key=@comp.key,..]  -> [comp.key=VAL|reject,..]  every declared dimension, cold, links followed
   place [name=spec,..] [i:j:spec,..]     -> reject | [i:j:name,..]
   consistent NB NH NX NM                 -> T | F
+  blocks [names] [heights] [xs] [mesh]   -> reject | [name|h|xs|mesh,..]      (blanks in names written as ~)
+  mult [i:j:id,..] [ids] DECL|_          -> reject | unset | VALUE            multiplicity learned from a pin lattice
+  flags [KNOWN,..] name~with~tildes      -> [FLAG,..]                         Flags.fromStringIgnoreErrors as a list
 Names contain no blanks, commas, brackets, ':', '=', '@' (the harness renames).
 -/
 
@@ -57,6 +60,29 @@ def answer : List String → String
         let d : AssemDesign := ⟨"", "", List.replicate nb "", List.replicate nh 0, List.replicate nx "", List.replicate nm 0⟩
         showBool (consistent d)
       | _, _, _, _ => "bad-op"
+  | ["blocks", bs, hs, xs, ms] =>
+      match parseList? some bs, parseRatList? hs, parseList? some xs, parseNatList? ms with
+      | some bs, some hs, some xs, some ms =>
+        let d : AssemDesign := ⟨"", "", bs, hs, xs, ms⟩
+        (match pairBlocks d with
+         | none => "reject"
+         | some r => showList (fun q => q.1 ++ "|" ++ showRat q.2.1 ++ "|" ++ q.2.2.1 ++ "|" ++ toString q.2.2.2) r)
+      | _, _, _, _ => "bad-op"
+  | ["mult", grid, ids, decl] =>
+      match parseList? parseContent? grid, parseList? some ids with
+      | some grid, some ids =>
+        let d : Option (Option Rat) := if decl = "_" then some none else (parseRat? decl).map some
+        (match d with
+         | none => "bad-op"
+         | some d => match multFromGrid grid ids d with
+           | none => "reject"
+           | some none => "unset"
+           | some (some q) => showRat q)
+      | _, _ => "bad-op"
+  | ["flags", known, name] =>
+      match parseList? some known with
+      | some known => showList id ((flagsOfName known (name.replace "~" " ")).mergeSort (fun a b => decide (a ≤ b)))
+      | none => "bad-op"
   | _ => "bad-op"
 
 def main : IO Unit := loop answer
